@@ -86,9 +86,19 @@ func (f *FuncCtx) specOrChain(ops []ast.Expr, env *Env) Val {
 	}
 	impOf := func(ops []ast.Expr) string {
 		parts := split(ops, "_IMP_")
+		// antecedents first: a literally false antecedent makes the clause vacuous at this program
+		// point and its consequent (which may mention names not in scope here) is not evaluated
+		var ants []string
+		for i := 0; i < len(parts)-1; i++ {
+			a := orOf(parts[i])
+			if a == "false" {
+				return "true"
+			}
+			ants = append(ants, a)
+		}
 		t := orOf(parts[len(parts)-1])
-		for i := len(parts) - 2; i >= 0; i-- {
-			t = fmt.Sprintf("(=> %s %s)", orOf(parts[i]), t)
+		for i := len(ants) - 1; i >= 0; i-- {
+			t = fmt.Sprintf("(=> %s %s)", ants[i], t)
 		}
 		return t
 	}
@@ -98,6 +108,20 @@ func (f *FuncCtx) specOrChain(ops []ast.Expr, env *Env) Val {
 		t = fmt.Sprintf("(= %s %s)", t, impOf(p))
 	}
 	return f.boolVal(t)
+}
+
+// evalClauseVal translates a contract expression to a value (not necessarily boolean).
+func (f *FuncCtx) evalClauseVal(cl Clause, env *Env, sc *specCtx) Val {
+	e, err := parseSpec(cl.Text)
+	if err != nil {
+		f.fail("contract %s:%d: %v", shortPath(cl.File), cl.Line, err)
+		return f.boolVal("true")
+	}
+	saved := f.spec
+	f.spec = sc
+	v := f.specExpr(e, env)
+	f.spec = saved
+	return v
 }
 
 // evalClause translates contract text in the given state.
@@ -157,6 +181,9 @@ func (f *FuncCtx) specIdent(name string, env *Env) (Val, bool) {
 		}
 	}
 	if v, ok := env.names[name]; ok {
+		return v, true
+	}
+	if v, ok := env.names["$g:"+name]; ok {
 		return v, true
 	}
 	if !sc.nolocals && sc.pos != token.NoPos {
